@@ -27,4 +27,32 @@ fi
 if ! go build -overlay "$scratch/instr/overlay.json" -o "$scratch/$lc" ./props/$lc 2>"$scratch/log"; then cat "$scratch/log" >&2; echo "BROKEN: instrumented build of $lc failed" >&2; exit 2; fi
 shift $#
 VERIF_INSTR_STATS="$scratch/instr-stats.json" "$scratch/$lc" --tier "$tier" ${VERIF_ARGS:-}
-exit $?
+code=$?
+# Auxiliary free-running -race pass (thorough tier only; sampling, reported separately in
+# the evidence, DESIGN.md section 3.4). A reported data race is a violation of the
+# "no data race" clause of the property.
+if [ "$tier" = thorough ] && [ -n "${VERIF_RACE_RUNS:-}" ] && [ -z "${VERIF_ARGS:-}" ] && [ $code -le 1 ]; then
+  if go build -race -overlay "$scratch/instr/overlay.json" -o "$scratch/$lc-race" ./props/$lc 2>"$scratch/log"; then
+    VERIF_FREE_RUN=1 VERIF_SEED=${VERIF_SEED:-1} GORACE="halt_on_error=0" "$scratch/$lc-race" --tier quick --free-run "$VERIF_RACE_RUNS" >"$scratch/race.out" 2>"$scratch/race.log"
+    races=$(grep -c "WARNING: DATA RACE" "$scratch/race.log")
+    up=$(echo $lc | tr a-z A-Z)
+    python3 - "$up" "$races" "$VERIF_RACE_RUNS" "$(cat $scratch/race.out | tail -1)" <<'PY'
+import json,sys
+pid,races,runs,line=sys.argv[1],int(sys.argv[2]),int(sys.argv[3]),sys.argv[4]
+p=f'/verif/evidence/{pid}.json'
+e=json.load(open(p))
+e['coverage']['race_pass']={'runs_per_scenario':runs,'data_races_reported':races,'summary':line,'note':'auxiliary free-running -race pass: sampling, not the deciding step'}
+if races: e['violations']=e.get('violations',0)+1
+json.dump(e,open(p,'w'),indent=1)
+PY
+    if [ "$races" -gt 0 ]; then
+      mkdir -p /verif/replays; rp=/verif/replays/$up-race-$$.txt; head -120 "$scratch/race.log" > $rp
+      echo "VIOLATION property=$up replay=$rp"
+      echo "  signature: data-race (free-running -race pass)"
+      code=1
+    fi
+  else
+    cat "$scratch/log" >&2; echo "BROKEN: race build failed" >&2; exit 2
+  fi
+fi
+exit $code
